@@ -14,12 +14,19 @@ RULE = ("(a) exhaustive typing table: every (element, AtomType, AtomGeom) triple
         "the reader, element restored, re-emitted token identical; (b) seeded random Molecule/Structure/ConformerEnsemble "
         "objects (0..40 atoms, all elements, every enum member, whitespace-free labels incl. None/empty/unicode, one-line "
         "names, coordinates from 1e-9 to 1e8, NaN, charges, 0..dense bonds of every type, 1..6 conformers) through "
-        "dumps/loads, dump/load on files and streams, loads_all; (c) bundled mol2 files read -> write -> read. "
-        "non-trivial = >=2 atoms and a non-single bond or a non-Regular atom type; distinct by snapshot hash")
+        "dumps/loads, dump/load on files (Path, str, open file) and streams, loads_all; names that begin with '#', '@<TRIPOS>', "
+        "'****' or are 100-300 characters long, labels equal to an element symbol or 12-64 characters long, repeated atom pairs "
+        "and self-pairs in the bond list, NaN / inf / large / tiny partial charges; trivial user subclasses of the three "
+        "classes; Substructure and lone Conformer as writers; several different molecules written to one text and read with "
+        "load(s)_all_mol2; every object written again after edits through the public API; (c) bundled mol2 files read -> "
+        "write -> read. non-trivial = >=2 atoms and a non-single bond or a non-Regular atom type; distinct by snapshot hash")
 ASSUMPTIONS = [
     "atom TYPE (AtomType/AtomGeom) preservation is not demanded beyond the fixed point of the text: the statement lists "
     "element, label, coordinates, charges, bonds",
-    "an atom without label is written with its element symbol as label (compared as such)",
+    "an atom without label is written with its element symbol as label: the substitution is applied to the written object "
+    "only, the label read back is compared literally",
+    "a Substructure has no name of its own: its name line is not compared",
+    "an edit operation that itself raises ends the write-edit-write stage of that case without a verdict",
     "coordinates compare within 5.1e-7 absolute (12.6f), charges within 5.1e-4 (0.3f); NaN matches NaN",
     "the fixed point is judged modulo the sign of a printed zero (-0.000 == 0.000)",
     "bond types mol2 cannot express (Quadruple..Sextuple are expressible; Ligand, FractionalOrder, H_Donor, H_Acceptor are "
@@ -27,7 +34,14 @@ ASSUMPTIONS = [
 ]
 REQUIRED = {"table.triples": 44982, "table.bondtypes": 15, "roundtrip.Molecule": 100, "roundtrip.Structure": 50,
             "roundtrip.ConformerEnsemble": 50, "fixedpoint.text": 200, "bundled.files": 5,
-            "read.again-after-editing-first-result": 50, "library-trip.type-tokens-compared": 40, "source.atoms-lent-to-another-structure": 20}
+            "read.again-after-editing-first-result": 50, "library-trip.type-tokens-compared": 40, "source.atoms-lent-to-another-structure": 20,
+            "multi-record.texts": 150, "multi-record.elements-compared": 400, "rewrite-after-edit.compared": 200,
+            "rewrite-after-edit.bond-type-edited": 40, "rewrite-after-edit.element-edited": 40,
+            "input.name-first-char-special": 30, "input.name-100-chars-or-longer": 15, "input.label-12-chars-or-longer": 60,
+            "input.label-equals-own-element-symbol": 60, "input.label-equals-other-element-symbol": 30,
+            "input.bond-list-repeats-a-pair": 40, "input.bond-of-an-atom-to-itself": 10, "input.charge-nan-or-inf": 40,
+            "input.charge-magnitude-1e3-or-more": 20, "input.user-subclass": 50, "route.file-name-as-str": 40,
+            "route.open-file-object": 40, "writer.Substructure": 40, "writer.lone-Conformer": 40}
 EXHAUSTIVE = False
 CHUNK_TIMEOUT = 900
 TECHNIQUE = "runtime monitoring: write/read/write/read fixed-point oracle + exhaustive atom/bond typing table"
@@ -147,23 +161,25 @@ def mol2_safe_molecule(rng, cls):
     return m
 
 
-def expected_view(s):
-    """what the statement says must survive, derived from a snapshot of the source"""
+def expected_view(s, literal=False):
+    """what the statement says must survive, derived from a snapshot of the source. literal=True: the view of an object
+    that was READ -- no substitution at all (an unlabelled atom is written with its element symbol, a bond type mol2
+    cannot express is written as Unknown: both rules describe the writer, the read side must literally equal the result)"""
     from molli.chem import Element
 
     v = {"name": s.get("name"),
          "elements": [a["element"] for a in s["atoms"]],
-         "labels": [a["label"] or Element(a["element"]).name for a in s["atoms"]],
-         "bonds": [(b["a1"], b["a2"], b["btype"] if b["btype"] in EXPRESSIBLE else 0) for b in s.get("bonds", [])],
+         "labels": [a["label"] if literal else (a["label"] or Element(a["element"]).name) for a in s["atoms"]],
+         "bonds": [(b["a1"], b["a2"], b["btype"] if (literal or b["btype"] in EXPRESSIBLE) else 0) for b in s.get("bonds", [])],
          "coords": s.get("coords"), "charges": s.get("atomic_charges")}
     return v
 
 
-def compare(ctx, case, tag, stage, want, got_snap, with_charges):
+def compare(ctx, case, tag, stage, want, got_snap, with_charges, with_name=True):
     import numpy as np
 
-    g = expected_view(got_snap)
-    for f in ("name", "elements", "labels", "bonds"):
+    g = expected_view(got_snap, literal=True)
+    for f in (("name",) if with_name else ()) + ("elements", "labels", "bonds"):
         if want[f] != g[f]:
             if f in ("elements", "labels", "bonds") and len(want[f]) != len(g[f]):
                 ctx.violation(f"{tag}:{stage}:{f}-count-differs", case=case, want=len(want[f]), got=len(g[f]))
@@ -177,7 +193,7 @@ def compare(ctx, case, tag, stage, want, got_snap, with_charges):
         ctx.violation(f"{tag}:{stage}:coords-shape-differs", case=case, want=cw.shape, got=cg.shape)
         return False
     with np.errstate(invalid="ignore"):
-        ok = (np.isnan(cw) & np.isnan(cg)) | (np.abs(cw - cg) <= 5.1e-7 + 1e-15 * np.abs(cw))
+        ok = (np.isnan(cw) & np.isnan(cg)) | (cw == cg) | (np.abs(cw - cg) <= 5.1e-7 + 1e-15 * np.abs(cw))
     if not ok.all():
         i = tuple(np.argwhere(~ok)[0])
         ctx.violation(f"{tag}:{stage}:coordinates-differ-beyond-written-precision", case=case, index=i, want=float(cw[i]), got=float(cg[i]))
@@ -188,12 +204,165 @@ def compare(ctx, case, tag, stage, want, got_snap, with_charges):
             ctx.violation(f"{tag}:{stage}:charges-shape-differs", case=case, want=qw.shape, got=qg.shape)
             return False
         with np.errstate(invalid="ignore"):
-            ok = (np.isnan(qw) & np.isnan(qg)) | (np.abs(qw - qg) <= 5.1e-4)
+            ok = (np.isnan(qw) & np.isnan(qg)) | (qw == qg) | (np.abs(qw - qg) <= 5.1e-4 + 1e-15 * np.abs(qw))
         if not ok.all():
             i = tuple(np.argwhere(~ok)[0])
             ctx.violation(f"{tag}:{stage}:charges-differ-beyond-written-precision", case=case, index=i, want=float(qw[i]), got=float(qg[i]))
             return False
     return True
+
+
+# ---- input classes added after the gap review (kept out of mol2_safe_molecule, whose output other modules rely on)
+_IUPAC = "(2S,5R,6R)-3,3-dimethyl-7-oxo-6-[(2-phenylacetyl)amino]-4-thia-1-azabicyclo[3.2.0]heptane-2-carboxylic_acid"
+NAMES_FIRST_CHAR = ["#12 (batch 3)", "#", "# Produced with molli package", "#x#", "@<TRIPOS>MOLECULE", "@<TRIPOS>ATOM",
+                    "@<TRIPOS>BOND 1", "@<TRIPOS>SUBSTRUCTURE", "@", "****", "*****", "SMALL", "USER_CHARGES", "NO_CHARGES",
+                    "3 2 0 0 0", "0"]
+NAMES_LONG = [_IUPAC, _IUPAC + "_a", _IUPAC + "_b", "n" * 100, "N" * 300, (_IUPAC + " ") * 2 + "tail-1", (_IUPAC + " ") * 2 + "tail-2",
+              "x" * 79 + "y", "x" * 80 + "y", "x" * 255 + "yz"]
+LABELS_LONG = ["C_alpha_ring1", "C_alpha_ring2", "abcdefghijk1", "abcdefghijk2", "L" * 64, "lbl_0123456789_abcdefghij_A",
+               "lbl_0123456789_abcdefghij_B", "Q" * 16, "#" + "c" * 20, "αβγδεζηθικλμ"]
+OTHER_SYMBOLS = ["C", "N", "H", "O", "Fe", "Cl", "Du", "Unknown", "LP"]
+
+
+def ext_molecule(rng, cls, ctx):
+    """mol2_safe_molecule plus the input classes of the gap review: first-character-special and long names, long labels,
+    labels equal to an element symbol, repeated pairs / self-pairs in the bond list, special partial charges"""
+    import numpy as np
+    from molli.chem import BondType
+
+    m = mol2_safe_molecule(rng, cls)
+    n = m.n_atoms
+    r = rng.random()
+    if r < 0.2:
+        m.name = rng.choice(NAMES_FIRST_CHAR)
+        ctx.count("input.name-first-char-special")
+    elif r < 0.32:
+        m.name = rng.choice(NAMES_LONG)
+        if len(m.name) >= 100:
+            ctx.count("input.name-100-chars-or-longer")
+    if n and rng.random() < 0.6:
+        for a in m.atoms:
+            r = rng.random()
+            if r < 0.15:
+                a.label = a.element.symbol
+                ctx.count("input.label-equals-own-element-symbol")
+            elif r < 0.22:
+                lab = rng.choice(OTHER_SYMBOLS)
+                if lab != a.element.symbol:
+                    a.label = lab
+                    ctx.count("input.label-equals-other-element-symbol")
+            elif r < 0.37:
+                a.label = rng.choice(LABELS_LONG)
+                ctx.count("input.label-12-chars-or-longer")
+    btypes = list(BondType)
+    if n >= 2 and m.n_bonds and rng.random() < 0.3:
+        atoms = list(m.atoms)
+        for _ in range(rng.randrange(1, 4)):
+            b = rng.choice(list(m.bonds))
+            i, k = atoms.index(b.a1), atoms.index(b.a2)
+            if rng.random() < 0.5:
+                i, k = k, i
+            m.connect(i, k, btype=rng.choice([b.btype] + btypes))
+        ctx.count("input.bond-list-repeats-a-pair")
+    if n and rng.random() < 0.08:
+        i = rng.randrange(n)
+        m.connect(i, i, btype=rng.choice(btypes))
+        ctx.count("input.bond-of-an-atom-to-itself")
+    if n and hasattr(m, "atomic_charges") and rng.random() < 0.35:
+        q = np.array(m.atomic_charges, dtype=float)
+        special_charges(rng, q, ctx)
+        m.atomic_charges = q
+    if n and rng.random() < 0.06:
+        c = np.array(m.coords)
+        c[rng.randrange(n), rng.randrange(3)] = rng.choice([float("inf"), float("-inf")])
+        m.coords = c
+    return m
+
+
+def special_charges(rng, q, ctx):
+    """puts 1..3 special values (NaN, +-inf, large, tiny) into a charge array (any shape), in place"""
+    import numpy as np
+
+    flat = q.reshape(-1)
+    for _ in range(rng.randrange(1, 4)):
+        v = rng.choice([float("nan"), float("nan"), float("inf"), float("-inf"), 1e3, -1234.5678, 99999.9994, 12345678.125,
+                        1e-4, -4.9e-4, 1e-7, -1e-30])
+        flat[rng.randrange(flat.size)] = v
+        if not np.isfinite(v):
+            ctx.count("input.charge-nan-or-inf")
+        elif abs(v) >= 1e3:
+            ctx.count("input.charge-magnitude-1e3-or-more")
+
+
+def edit_through_public_api(rng, x, is_ens, ctx):
+    """1..4 edits of an object that has already been written; returns the list of operation names (None: an edit raised)"""
+    import numpy as np
+    from molli.chem import Atom, AtomGeom, AtomType, BondType, Element
+
+    ops = ["bond-type", "element", "bond-type", "element", "atom-type", "label", "coords", "charges", "name", "add-bond", "del-bond"]
+    if not is_ens:
+        ops += ["add-atom", "del-atom"]
+    done = []
+    try:
+        for op in rng.sample(ops, rng.randrange(1, 5)):
+            n = x.n_atoms
+            if op == "bond-type" and x.n_bonds:
+                b = rng.choice(list(x.bonds))
+                b.btype = rng.choice([t for t in BondType if t != b.btype])
+            elif op == "element" and n:
+                a = rng.choice(list(x.atoms))
+                a.element = rng.choice([e for e in Element if e != a.element])
+            elif op == "atom-type" and n:
+                a = rng.choice(list(x.atoms))
+                a.atype = rng.choice(list(AtomType))
+                a.geom = rng.choice(list(AtomGeom))
+            elif op == "label" and n:
+                a = rng.choice(list(x.atoms))
+                a.label = rng.choice(["E1", "edited-label", a.element.symbol, None, "C_alpha_ring3"])
+            elif op == "coords" and n:
+                c = np.array(x.coords)
+                c[..., rng.randrange(n), :] += rng.choice([0.001, -1.5, 250.0])
+                x.coords = c
+            elif op == "charges" and n and hasattr(x, "atomic_charges"):
+                q = np.array(x.atomic_charges, dtype=float)
+                q[..., rng.randrange(n)] = rng.choice([0.75, -0.333, float("nan"), 0.0, 1e3])
+                x.atomic_charges = q
+            elif op == "name":
+                x.name = rng.choice(["renamed", "#renamed", str(x.name) + "_v2", _IUPAC])
+            elif op == "add-bond" and n >= 2:
+                i, k = rng.sample(range(n), 2)
+                x.connect(i, k, btype=rng.choice(list(BondType)))
+            elif op == "del-bond" and x.n_bonds:
+                x.del_bond(rng.choice(list(x.bonds)))
+            elif op == "add-atom":
+                x.add_atom(Atom(rng.choice(list(Element)), label=rng.choice([None, "NEW1", "N"])), [1.25, -2.5, 3.75])
+                if x.n_atoms >= 2:
+                    x.connect(x.n_atoms - 1, rng.randrange(x.n_atoms - 1), btype=rng.choice(list(BondType)))
+            elif op == "del-atom" and n:
+                x.del_atom(rng.randrange(n))
+            else:
+                continue
+            done.append(op)
+    except Exception as e:  # noqa -- the edit operations are other properties' subject
+        ctx.count("rewrite-after-edit.edit-operation-raised")
+        return None
+    return done
+
+
+def read_in_form(reader_all, form, text, path):
+    """the five argument forms of load(s)_all_mol2"""
+    import io
+
+    if form == "text":
+        return reader_all["loads"](text)
+    if form == "stream":
+        return reader_all["load"](io.StringIO(text))
+    path.write_text(text)
+    if form == "Path":
+        return reader_all["load"](path)
+    if form == "str":
+        return reader_all["load"](str(path))
+    return reader_all["load"](open(path, "rt"))
 
 
 def run_rand(spec, ctx):
@@ -204,24 +373,31 @@ def run_rand(spec, ctx):
     from vmon.snap import snap, diff, snap_hash, brief
 
     cname = spec["cls"]
+    is_ens = cname == "ConformerEnsemble"
     for j in range(spec["n"]):
         case = (spec["chunk"], j)
         if not ctx.want(case):
             continue
         rng = ctx.rng(*case)
-        tag = cname
-        if cname == "ConformerEnsemble":
-            base = mol2_safe_molecule(rng, ml.Molecule)
+        base_cls = getattr(ml, cname)
+        sub = j % 5 == 2
+        cls = type("User" + cname, (base_cls,), {}) if sub else base_cls      # a trivial user subclass is a Molecule / ... too
+        tag = cname + (":user-subclass" if sub else "")
+        if sub:
+            ctx.count("input.user-subclass")
+        if is_ens:
+            base = ext_molecule(rng, ml.Molecule, ctx)
             nc = rng.randrange(1, 7)
-            x = ml.ConformerEnsemble(base, n_conformers=nc)
+            x = cls(base, n_conformers=nc)
             x.coords = np.array([np.array(base.coords) + i * 0.5 + rng.random() for i in range(nc)]).reshape(nc, base.n_atoms, 3)
-            x.atomic_charges = np.array([[rng.choice([0.0, 0.25, -0.125, rng.uniform(-1, 1)]) for _ in range(base.n_atoms)]
-                                         for _ in range(nc)]).reshape(nc, base.n_atoms)
-            cls = ml.ConformerEnsemble
+            q = np.array([[rng.choice([0.0, 0.25, -0.125, rng.uniform(-1, 1)]) for _ in range(base.n_atoms)]
+                          for _ in range(nc)], dtype=float).reshape(nc, base.n_atoms)
+            if q.size and rng.random() < 0.35:
+                special_charges(rng, q, ctx)
+            x.atomic_charges = q
         else:
-            cls = getattr(ml, cname)
-            x = mol2_safe_molecule(rng, cls)
-        if cname != "ConformerEnsemble" and x.n_atoms >= 2 and rng.random() < 0.2:
+            x = ext_molecule(rng, cls, ctx)
+        if not is_ens and x.n_atoms >= 2 and rng.random() < 0.2:
             # the object has lent its atoms to another structure (adopted without copy): it is still the same molecule
             helper = ml.Promolecule(rng.sample(list(x.atoms), rng.randrange(1, x.n_atoms + 1)))
             ctx.count("source.atoms-lent-to-another-structure")
@@ -231,7 +407,8 @@ def run_rand(spec, ctx):
         nt = x.n_atoms >= 2 and (any(b["btype"] != 1 for b in sx.get("bonds", [])) or any(a["atype"] != 1 for a in sx["atoms"]))
         ctx.case(case, dkey=snap_hash(sx), nontrivial=nt, sample=brief(x))
         ctx.count(f"roundtrip.{cname}")
-        route = rng.choice(["dumps/loads", "dump/load-stream", "dump/load-file"])
+        route = rng.choice(["dumps/loads", "dump/load-stream", "dump/load-file:Path", "dump/load-file:str", "dump/load-file:open-file"])
+        p = ctx.tmp / f"m{j}.mol2"
         try:
             text1 = x.dumps_mol2()
             if route == "dump/load-stream":
@@ -239,38 +416,64 @@ def run_rand(spec, ctx):
                 x.dump_mol2(buf)
                 if buf.getvalue() != text1:
                     ctx.violation(f"{tag}:dump-to-stream-differs-from-dumps", case=case)
+            elif route.startswith("dump/load-file"):
+                with open(p, "wt") as f:
+                    x.dump_mol2(f)
+                if p.read_text() != text1:
+                    ctx.violation(f"{tag}:dump-to-file-differs-from-dumps", case=case)
         except Exception as e:  # noqa
             ctx.violation(f"{tag}:write-raises:{type(e).__name__}:{_where(e)}", case=case, err=repr(e)[:200], obj=brief(x))
             continue
         if snap_differs(sx, snap(x)):
             ctx.violation(f"{tag}:writing-altered-the-object", case=case)
         try:
-            if route == "dump/load-file":
-                p = ctx.tmp / f"m{j}.mol2"
-                p.write_text(text1)
+            if route == "dump/load-file:Path":
                 y = cls.load_mol2(p)
+            elif route == "dump/load-file:str":
+                ctx.count("route.file-name-as-str")
+                y = cls.load_mol2(str(p))
+            elif route == "dump/load-file:open-file":
+                ctx.count("route.open-file-object")
+                y = cls.load_mol2(open(p, "rt"))
             elif route == "dump/load-stream":
                 y = cls.load_mol2(io.StringIO(text1))
             else:
                 y = cls.loads_mol2(text1)
         except Exception as e:  # noqa
-            ctx.violation(f"{tag}:own-text-rejected-by-reader:{type(e).__name__}:{_where(e)}", case=case, err=repr(e)[:200],
-                          obj=brief(x), text_head=text1[:300])
+            ctx.violation(f"{tag}:own-text-rejected-by-reader:{route.split(':')[-1] + ':' if ':' in route else ''}{type(e).__name__}:{_where(e)}",
+                          case=case, err=repr(e)[:200], obj=brief(x), text_head=text1[:300])
             continue
+        if type(y) is not cls:
+            ctx.violation(f"{tag}:read-returns-another-class", case=case, want=cls.__name__, got=type(y).__name__)
         # ---- first read vs source
-        if cname == "ConformerEnsemble":
+        if is_ens:
             ok = compare_ensemble(ctx, case, tag, "read", x, y)
         else:
             ok = compare(ctx, case, tag, "read", expected_view(sx), snap(y), with_charges=cname == "Molecule")
             if cname == "Molecule":
                 try:
-                    ys = ml.Molecule.loads_all_mol2(text1)
+                    ys = cls.loads_all_mol2(text1)
                     if len(ys) != 1:
                         ctx.violation(f"{tag}:loads_all-count-differs", case=case, got=len(ys))
                 except Exception as e:  # noqa
                     ctx.violation(f"{tag}:loads_all-raises:{type(e).__name__}", case=case)
         if not ok:
             continue
+        # ---- several DIFFERENT molecules in one text, read with load(s)_all_mol2: every element against its own source
+        if not is_ens:
+            multi_record(ctx, case, tag, rng, cls, cname, x, j)
+        # ---- writers that are Structures / Molecules without being built as such: Substructure, lone Conformer
+        if not is_ens and j % 3 == 1:
+            substructure_writer(ctx, case, rng, x)
+        if is_ens and x.n_conformers:
+            i = rng.randrange(x.n_conformers)
+            try:
+                ctx.count("writer.lone-Conformer")
+                conf = x[i]
+                yc = ml.Molecule.loads_mol2(conf.dumps_mol2())
+                compare(ctx, case, "Conformer", "read", expected_view(snap(conf)), snap(yc), with_charges=True)
+            except Exception as e:  # noqa
+                ctx.violation(f"Conformer:write-read-raises:{type(e).__name__}:{_where(e)}", case=case, err=repr(e)[:200])
         # ---- the same molecule after a trip through a library file (fields come back as plain values) writes the same
         # atom-type and bond-type tokens as the original
         if j % 4 == 1 and cname in ("Molecule", "ConformerEnsemble") and x.n_atoms:
@@ -325,6 +528,110 @@ def run_rand(spec, ctx):
         d = diff(snap(y), snap(z))
         if d:
             ctx.violation(f"{tag}:second-read-differs:{d[0][0].split(chr(91))[0].strip(chr(46))}", case=case, diff=d[:3])
+            continue
+        # ---- write -> edit through the public API -> write: the second text describes the edited object
+        done = edit_through_public_api(rng, x, is_ens, ctx)
+        if not done:
+            continue
+        sx2 = snap(x)
+        try:
+            text3 = x.dumps_mol2()
+        except Exception as e:  # noqa
+            ctx.violation(f"{tag}:rewrite-after-edit:write-raises:{type(e).__name__}:{_where(e)}", case=case, edits=done, err=repr(e)[:200])
+            continue
+        try:
+            y3 = cls.loads_mol2(text3)
+        except Exception as e:  # noqa
+            ctx.violation(f"{tag}:rewrite-after-edit:own-text-rejected-by-reader:{type(e).__name__}:{_where(e)}", case=case, edits=done,
+                          err=repr(e)[:200])
+            continue
+        ctx.count("rewrite-after-edit.compared")
+        for op in set(done):
+            if op in ("bond-type", "element"):
+                ctx.count(f"rewrite-after-edit.{op}-edited")
+        if is_ens:
+            compare_ensemble(ctx, case, tag, "rewrite-after-edit:read", x, y3)
+        else:
+            compare(ctx, case, tag, "rewrite-after-edit:read", expected_view(sx2), snap(y3), with_charges=cname == "Molecule")
+
+
+def multi_record(ctx, case, tag, rng, cls, cname, x, j):
+    import io
+    import numpy as np
+    import molli as ml
+    from vmon.snap import snap
+
+    UserMolecule = type("UserMoleculeSource", (ml.Molecule,), {})
+    sources = [x]
+    for _ in range(rng.randrange(1, 4)):
+        r = rng.random()
+        if r < 0.2:
+            b = ext_molecule(rng, ml.Molecule, ctx)
+            e = ml.ConformerEnsemble(b, n_conformers=2)
+            e.coords = np.array([np.array(b.coords) + 0.25, np.array(b.coords) - 1.0]).reshape(2, b.n_atoms, 3)
+            e.atomic_charges = np.array([b.atomic_charges, b.atomic_charges * 0.5]).reshape(2, b.n_atoms)
+            sources += [e[0], e[1]]
+        else:
+            sources.append(ext_molecule(rng, rng.choice([ml.Molecule, ml.Molecule, ml.Structure, UserMolecule]), ctx))
+    rng.shuffle(sources)
+    buf = io.StringIO()
+    try:
+        for s in sources:
+            s.dump_mol2(buf)
+    except Exception as e:  # noqa
+        ctx.violation(f"{tag}:multi-record:write-raises:{type(e).__name__}:{_where(e)}", case=case, err=repr(e)[:200])
+        return
+    text = buf.getvalue()
+    form = rng.choice(["text", "stream", "Path", "str", "open-file"])
+    ctx.count({"str": "route.file-name-as-str", "open-file": "route.open-file-object"}.get(form, "route.other"))
+    try:
+        got = read_in_form({"loads": cls.loads_all_mol2, "load": cls.load_all_mol2}, form, text, ctx.tmp / f"multi{j}.mol2")
+    except Exception as e:  # noqa
+        ctx.violation(f"{tag}:multi-record:own-text-rejected-by-reader:{form}:{type(e).__name__}:{_where(e)}", case=case,
+                      err=repr(e)[:200], n_records=len(sources))
+        return
+    ctx.count("multi-record.texts")
+    if not isinstance(got, list) or len(got) != len(sources):
+        ctx.violation(f"{tag}:multi-record:record-count-differs", case=case, want=len(sources),
+                      got=len(got) if isinstance(got, list) else type(got).__name__)
+        return
+    for s, g in zip(sources, got):
+        ctx.count("multi-record.elements-compared")
+        if type(g) is not cls:
+            ctx.violation(f"{tag}:multi-record:read-returns-another-class", case=case, want=cls.__name__, got=type(g).__name__)
+        if not compare(ctx, case, tag, "multi-record:read", expected_view(snap(s)), snap(g),
+                       with_charges=cname == "Molecule" and isinstance(s, ml.Molecule)):
+            return
+
+
+def substructure_writer(ctx, case, rng, x):
+    import molli as ml
+    from vmon.snap import snap
+
+    n = x.n_atoms
+    how = rng.choice(["constructor", "constructor", "method", "heavy"])
+    try:
+        if how == "heavy":
+            s = x.heavy
+        else:
+            idx = rng.sample(range(n), rng.randrange(0, n + 1))
+            s = ml.Substructure(x, idx) if how == "constructor" else x.substructure(idx)
+        ss = snap(s)
+    except Exception as e:  # noqa -- building a Substructure is not this property's subject
+        ctx.count("writer.Substructure-could-not-be-built")
+        return
+    ctx.count("writer.Substructure")
+    try:
+        text = s.dumps_mol2()
+    except Exception as e:  # noqa
+        ctx.violation(f"Substructure:write-raises:{type(e).__name__}:{_where(e)}", case=case, err=repr(e)[:200], how=how)
+        return
+    try:
+        y = ml.Structure.loads_mol2(text)
+    except Exception as e:  # noqa
+        ctx.violation(f"Substructure:own-text-rejected-by-reader:{type(e).__name__}:{_where(e)}", case=case, err=repr(e)[:200])
+        return
+    compare(ctx, case, "Substructure", "read", expected_view(ss), snap(y), with_charges=False, with_name=False)
 
 
 def norm_text(t):
